@@ -181,4 +181,37 @@ def run(ctx):
                 ctx.violation(f"MVCAPA() with default hyper-parameters on a {n_} x {p_} series: anomaly [{l_}, {r_}) reports columns {got} (dense labels mark {marked}), the best non-empty "
                               f"prefix of the columns sorted by saving is {want}", {"n": n_, "p": p_, "anomaly": [l_, r_], "icolumns": got, "expected": want, "savings": sav.tolist()},
                               {"what": "default-scale-columns", "detector": "MVCAPA"})
+    # ---- a collective saving with a NON-TRIVIAL fixed baseline (Gaussian, mean 2, variance 3: two parameters per variable) next to the default point saving: the affected
+    # ---- columns are the best prefix of the columns sorted by the saving COMPUTED FROM ITS DEFINITION (harness/direct.py), under the sparse penalty for 2 p parameters
+    from harness import direct as _direct16
+    from skchange.costs import GaussianVarCost as _GV16
+    for it in range(ctx.n(2, 8)):
+        n_, p_ = rng.randint(120, 260), rng.choice([3, 4, 6])
+        mu_, var_ = 2.0, 3.0
+        Xg = np.asarray([[rng.gauss(mu_, math.sqrt(var_)) for _ in range(p_)] for _ in range(n_)])
+        for _ in range(3):
+            a_ = rng.randint(10, n_ - 50)
+            Xg[a_:a_ + rng.randint(8, 30), rng.sample(range(p_), rng.randint(1, p_))] += rng.choice([4.0, -5.0, 7.0])
+        dg = _MVCAPA(collective_saving=_GV16((mu_, var_)), min_segment_length=2, max_segment_length=60).fit(Xg)
+        yg = dg.predict(Xg)
+        sa, sb = capa_penalty_factory("sparse")(n_, p_, 2, dg.collective_penalty_scale)
+        ctx.case({"gaussian_baseline_cols": it, "n": n_, "p": p_, "x0": float(Xg[0, 0])}, nontrivial=len(yg) > 0)
+        ctx.count("default_scale", "MVCAPA-columns(Gaussian baseline)")
+        for l_, r_, cc_ in zip(yg["ilocs"].array.left, yg["ilocs"].array.right, yg["icolumns"]):
+            l_, r_ = int(l_), int(r_)
+            if r_ - l_ == 1:
+                continue
+            sav = np.asarray(_direct16.saving_direct("gvar", (mu_, var_), Xg, l_, r_), dtype=float)
+            order = np.argsort(-sav, kind="stable")
+            pen = np.cumsum(sav[order] - np.asarray(sb, dtype=float)) - sa
+            k_ = int(np.argmax(pen))
+            srt = np.sort(pen)[::-1]
+            if len(srt) > 1 and srt[0] - srt[1] < 1e-7 * (abs(srt[0]) + 1):
+                continue
+            want, got = sorted(int(c) for c in order[: k_ + 1]), sorted(int(c) for c in cc_)
+            if got != want:
+                ctx.violation(f"MVCAPA(collective_saving=GaussianVarCost(({mu_}, {var_}))) on a {n_} x {p_} series: anomaly [{l_}, {r_}) reports columns {got}; with the savings computed "
+                              f"from their definition ({[round(float(v), 3) for v in sav]}) the best non-empty prefix is {want}", {"n": n_, "p": p_, "anomaly": [l_, r_], "icolumns": got,
+                                                                                                                                   "expected": want, "X": Xg.tolist()},
+                              {"what": "gaussian-baseline-columns", "detector": "MVCAPA"})
 
